@@ -135,6 +135,7 @@ PROPS = {
             {"name": "lossy-nowait", "quick": 30000, "thorough": 3000000, "thorough_time": 120},
             {"name": "lossy-paced", "quick": 30000, "thorough": 3000000, "thorough_time": 150},
             {"name": "bp-timeout", "quick": 30000, "thorough": 3000000, "thorough_time": 120},
+            {"name": "bp-slow", "quick": 20000, "thorough": 3000000, "thorough_time": 120},
         ],
         "require_hits": ["stall", "abandon", "advance", "cancel"],
         "assumptions": ["subscriptions are opened before the writers start (subscribe/commit races are C03's subject)"],
